@@ -170,7 +170,7 @@ func init() {
 	})
 	register(&PropSpec{
 		ID: "C04",
-		Explanation: "R-TERM exception E-DEFAULTGUARD clause (f): a value of the schema is put into the map Unserialize works from only behind the failed comma-ok lookup of that key ('unset' means to the re-seeding code what it means to the guard's walk). Decided: R-STABLEID - no accessor hands out a copy of an object where the original has an address (the walks that bound the recursion tell objects apart by address); R-TERM exception E-DEFAULTGUARD now requires the guard walk to share with Unserialize the function that works out the value of an unset property and the predicate of the single-property shorthand. Decided: R-KINDPRE - every kind-restricted method of reflect.Value (Len, Index, MapKeys, MapIndex, MapRange, SetMapIndex, NumField, Field*, Elem, IsNil, Int, Uint, Float, Bool) is called on a Value whose own kind is known to fit (provenance, a Kind() comparison on every path, the callers, the callee whose result it wraps), 6 exceptions E-OWNTYPE / E-PROBE; R-REFLECT (i) - Set / SetMapIndex with a dynamically typed value only behind AssignableTo, Convert or a recover; R-TERM exception E-DEFAULTGUARD - the values of the schema fed back into Unserialize (defaults, sub-object defaults) are examined by a bounded guard first. NOT decided: Go values that contain themselves (Validate / Serialize recurse with the value). Decided: R-REFLECT (g) - Elem() only of a pointer known not to be nil (through parameters and callers); (h) - Set on a struct field only under CanSet() or a recover scope; R-TERM - the sub-object-defaults descent is bounded by a visited path, the inline-shorthand chain by a guard method (exception E-CHAINGUARD). Decided: R-UNSETNIL (CanInterface clause) and R-REFLECT (e, f) - field access through the field cache does not walk through nil embedded pointers, values of unexported fields are not read, Convert to run-time types needs CanConvert. no reachable unguarded panic site of three classes in the functions reachable from Unserialize/Validate/Serialize/ValidateCompatibility " +
+		Explanation: "Decided: R-FIELDIFACE - Interface() on a value read out of a struct field through reflection in the same function (also through Elem / Convert / Index) only where CanInterface() was found true for it, or inside a recover scope: a property mapped to an unexported field yields an error, not a reflect panic. R-TERM exception E-DEFAULTGUARD clause (f): a value of the schema is put into the map Unserialize works from only behind the failed comma-ok lookup of that key ('unset' means to the re-seeding code what it means to the guard's walk). Decided: R-STABLEID - no accessor hands out a copy of an object where the original has an address (the walks that bound the recursion tell objects apart by address); R-TERM exception E-DEFAULTGUARD now requires the guard walk to share with Unserialize the function that works out the value of an unset property and the predicate of the single-property shorthand. Decided: R-KINDPRE - every kind-restricted method of reflect.Value (Len, Index, MapKeys, MapIndex, MapRange, SetMapIndex, NumField, Field*, Elem, IsNil, Int, Uint, Float, Bool) is called on a Value whose own kind is known to fit (provenance, a Kind() comparison on every path, the callers, the callee whose result it wraps), 6 exceptions E-OWNTYPE / E-PROBE; R-REFLECT (i) - Set / SetMapIndex with a dynamically typed value only behind AssignableTo, Convert or a recover; R-TERM exception E-DEFAULTGUARD - the values of the schema fed back into Unserialize (defaults, sub-object defaults) are examined by a bounded guard first. NOT decided: Go values that contain themselves (Validate / Serialize recurse with the value). Decided: R-REFLECT (g) - Elem() only of a pointer known not to be nil (through parameters and callers); (h) - Set on a struct field only under CanSet() or a recover scope; R-TERM - the sub-object-defaults descent is bounded by a visited path, the inline-shorthand chain by a guard method (exception E-CHAINGUARD). Decided: R-UNSETNIL (CanInterface clause) and R-REFLECT (e, f) - field access through the field cache does not walk through nil embedded pointers, values of unexported fields are not read, Convert to run-time types needs CanConvert. no reachable unguarded panic site of three classes in the functions reachable from Unserialize/Validate/Serialize/ValidateCompatibility " +
 			"(and typed variants) of all Serializable implementers, outside recover scopes - R-ASSERT: every single-value type assertion is justified by dynamic-type " +
 			"provenance, a validator summary, a TypeID gate, the meta-root argument, or a named structural exception class; R-NILGUARD: every dereference of a field or " +
 			"parameter that the repository itself compares with nil is dominated by a non-nil fact on the same access path (dominator facts + must-dataflow for lazy-init); " +
@@ -179,6 +179,7 @@ func init() {
 			"hence level 'other', not a proof of totality.",
 		Assumptions: []string{wellFormed},
 		Rules: []func(*Ctx){
+			func(c *Ctx) { c.ruleFieldIface("R-FIELDIFACE") },
 			func(c *Ctx) { c.ruleStableID("R-STABLEID") },
 			func(c *Ctx) { c.ruleUnsetNil("R-UNSETNIL"); c.R.Floor("R-UNSETNIL", 3) },
 			func(c *Ctx) { c.ruleAssert("R-ASSERT", c.scopeData()); c.R.Floor("R-ASSERT", 14) },
